@@ -605,6 +605,7 @@ func (ex *Exec) mapUpdate(m *Map, key, val Value) {
 		ex.accessLog.noteObj(ex, m, true)
 	}
 	m.Entries = append(m.Entries, &mapEntry{K: key, V: val})
+	m.sticky = nil
 }
 
 func (ex *Exec) mapDelete(m *Map, key Value) {
@@ -618,6 +619,7 @@ func (ex *Exec) mapDelete(m *Map, key Value) {
 	for i, x := range m.Entries {
 		if x == e {
 			m.Entries = append(m.Entries[:i:i], m.Entries[i+1:]...)
+			m.sticky = nil
 			return
 		}
 	}
@@ -669,14 +671,26 @@ func (ex *Exec) rangeIter(x Value, t types.Type) Value {
 // mapOrder picks an iteration order: a choice point over all permutations for
 // small maps (Go leaves the order unspecified), insertion order or its reverse otherwise.
 func (ex *Exec) mapOrder(m *Map) []*mapEntry {
+	r := ex.mapOrder0(m)
+	if ex.MapOrderSticky && m != nil {
+		m.sticky = append([]*mapEntry(nil), r...)
+	}
+	return r
+}
+
+func (ex *Exec) mapOrder0(m *Map) []*mapEntry {
 	if ex.accessLog != nil {
 		ex.accessLog.noteObj(ex, m, false)
 	}
 	n := len(m.Entries)
 	es := append([]*mapEntry(nil), m.Entries...)
-	if n <= 1 {
-		return es
+	if n <= 1 || ex.MapOrderMax < 0 {
+		return es // MapOrderMax < 0: insertion order only (the harness varies the insertion order itself)
 	}
+	if ex.MapOrderSticky && m.sticky != nil && len(m.sticky) == n {
+		return append([]*mapEntry(nil), m.sticky...)
+	}
+
 	if n <= ex.MapOrderMax {
 		perms := permutations(n)
 		conds := make([]*smt.Term, len(perms))
